@@ -1,15 +1,229 @@
-(* Property C03 - only statements closed by `exact`, each followed by Print Assumptions. *)
-From Coq Require Import ZArith List Sorting.Sorted Sorting.Permutation.
-From Seq Require Import SeqSpec SeqModel SeqSortProofs.
+(* Property C03 - only statements closed by `exact`, each followed by Print Assumptions, plus
+   non-vacuity Examples.
+
+   Clause of the property statement                       -> theorem(s)
+   ------------------------------------------------------------------------------------------
+   "after any sequence of append, prepend, positional insert, removal (by index, value or
+    iterator), resize, reserve, clear, swap, copy and assignment, List ... contain[s] exactly the
+    elements, in the order, that a reference sequence contains"
+                                                           -> list_step_refines, list_history_refines
+   the same for PoolList (in-place construction = append)  -> poollist_step_refines, poollist_history_refines
+   the same for Array (incl. resize, reserve, remove(idx)) -> array_step_refines, array_history_refines
+   "every returned iterator or reference designates the documented element (the inserted one, or
+    the successor of the removed one)"                     -> the `res` component of the three *_refines
+                                                              theorems (rank of the returned node), with
+                                                              rank_of_insert_is_inserted,
+                                                              rank_of_remove_is_successor,
+                                                              rank_of_append_is_appended for what the
+                                                              ranks of the reference object mean
+   "capacity boundaries of Array growth"                   -> array_reserve_rule, array_reserve_fits,
+                                                              array_reserve_grows, array_history_capacity
+   Array shifting removal                                  -> array_remove_shifts
+   "List::sort leaves an ascending permutation of the previous contents ... all input orders"
+                                                           -> sort_as_coded_sorted_permutation,
+                                                              sort_as_coded_total (pointer-level
+                                                              transcription qs_loop/qs_sort, fuel = length),
+                                                              sort_as_coded_is_value_sort (it computes the
+                                                              value-level model the drivers run),
+                                                              sort_sorted_permutation (any key order),
+                                                              sort_total (fuel = length suffices),
+                                                              the LSort case of list_step_refines,
+                                                              sort_keeps_nodes (iterators stay valid)
+   the pool (4-item blocks, LIFO free list, _size field) stays consistent in every reachable
+   state: part of *_step_refines (invariants linv / ainv)  *)
+From Coq Require Import ZArith List Bool Sorting.Sorted Sorting.Permutation.
+From Common Require Import ListAux.
+From Seq Require Import SeqSpec SeqModel SeqSortProofs SeqSortPtrProofs SeqPoolProofs SeqListProofs SeqArrayProofs.
 Import ListNotations.
 Local Open Scope Z_scope.
 
-(* List::sort never runs out of fuel (fuel = length), for every key order *)
+(* ---- List<T> ----------------------------------------------------------------------------- *)
+Theorem list_step_refines : forall (key : Z -> Z) (w : lworld) (op : lop) (w' : lworld) (r : mres),
+    linv w -> lstep key w op = (w', r) ->
+    linv w' /\ lspec key (labs w) op (labs w') (lobs_res w' r).
+Proof. exact lstep_refines. Qed.
+Print Assumptions list_step_refines.
+
+Theorem list_history_refines : forall (key : Z -> Z) (nv : nat) (ops : list lop),
+    lspec_run key (sinit nv) ops (lobs_trace (lrun key (linit nv) ops)).
+Proof. exact SeqListProofs.list_history_refines. Qed.
+Print Assumptions list_history_refines.
+
+Example list_history_nonvacuous :
+  lobs_trace (lrun key_full (linit 2)
+     [LAppends 0 [5; 3; 9]; LInsert 0 1 7; LRemove 0 0; LPrepend 0 4; LRemoveVal 0 9; LAppend 1 8;
+      LInsertList 0 1 1; LSort 0; LRemoveBack 0; LSwap 0 1; LFind 1 7; LAssign 0 1; LEq 0 1; LInsert 0 9 1])
+  = [([[5; 3; 9]; []], RNone); ([[5; 7; 3; 9]; []], RIt 1%nat); ([[7; 3; 9]; []], RIt 0%nat);
+     ([[4; 7; 3; 9]; []], RRef 0%nat); ([[4; 7; 3]; []], RNone); ([[4; 7; 3]; [8]], RRef 0%nat);
+     ([[4; 8; 7; 3]; [8]], RIt 1%nat); ([[3; 4; 7; 8]; [8]], RNone); ([[3; 4; 7]; [8]], RIt 3%nat);
+     ([[8]; [3; 4; 7]], RNone); ([[8]; [3; 4; 7]], RIt 2%nat); ([[3; 4; 7]; [3; 4; 7]], RNone);
+     ([[3; 4; 7]; [3; 4; 7]], RBool true); ([[3; 4; 7]; [3; 4; 7]], RSkip)].
+Proof. vm_compute. reflexivity. Qed.
+
+(* ---- PoolList<T> ------------------------------------------------------------------------- *)
+Theorem poollist_step_refines : forall (w : lworld) (op : pop) (w' : lworld) (r : mres),
+    linv w -> pstep w op = (w', r) ->
+    linv w' /\ pspec (labs w) op = (labs w', lobs_res w' r).
+Proof. exact pstep_refines. Qed.
+Print Assumptions poollist_step_refines.
+
+Theorem poollist_history_refines : forall (nv : nat) (ops : list pop),
+    pspec_run (sinit nv) ops = lobs_trace (prun (linit nv) ops).
+Proof. exact SeqListProofs.poollist_history_refines. Qed.
+Print Assumptions poollist_history_refines.
+
+Example poollist_history_nonvacuous :
+  lobs_trace (prun (linit 2) [PAppend 0 1; PAppend 0 2; PAppend 0 3; PAppend 0 4; PAppend 0 5; PRemove 0 1;
+                              PRemoveRef 0 2; PAppend 0 6; PRemoveBack 0; PSwap 0 1; PRemoveFront 1; PClear 1; PRemove 1 0])
+  = [([[1]; []], RRef 0%nat); ([[1; 2]; []], RRef 1%nat); ([[1; 2; 3]; []], RRef 2%nat);
+     ([[1; 2; 3; 4]; []], RRef 3%nat); ([[1; 2; 3; 4; 5]; []], RRef 4%nat); ([[1; 3; 4; 5]; []], RIt 1%nat);
+     ([[1; 3; 5]; []], RNone); ([[1; 3; 5; 6]; []], RRef 3%nat); ([[1; 3; 5]; []], RIt 3%nat);
+     ([[]; [1; 3; 5]], RNone); ([[]; [3; 5]], RIt 0%nat); ([[]; []], RNone); ([[]; []], RSkip)].
+Proof. vm_compute. reflexivity. Qed.
+
+(* ---- Array<T> ---------------------------------------------------------------------------- *)
+Theorem array_step_refines : forall (w : aworld) (op : aop) (w' : aworld) (r : mres),
+    ainv w -> astep w op = (w', r) ->
+    ainv w' /\ aspec (aabs w) op = (aabs w', aobs_res r).
+Proof. exact astep_refines. Qed.
+Print Assumptions array_step_refines.
+
+Theorem array_history_refines : forall (nv : nat) (ops : list aop),
+    aspec_run (sinit nv) ops = aobs_trace (arun (ainit nv) ops).
+Proof. exact SeqArrayProofs.array_history_refines. Qed.
+Print Assumptions array_history_refines.
+
+(* capacity() >= size(); an allocated array has a capacity that is 3 modulo 4; an unallocated one is empty *)
+Theorem array_history_capacity : forall (nv : nat) (ops : list aop),
+    Forall (fun wr => forall i, asize (aget i (fst wr)) <= cap (aget i (fst wr))
+                                /\ (allocated (aget i (fst wr)) = true -> cap (aget i (fst wr)) mod 4 = 3)
+                                /\ (allocated (aget i (fst wr)) = false -> items (aget i (fst wr)) = []))
+           (arun (ainit nv) ops).
+Proof. exact SeqArrayProofs.array_history_capacity. Qed.
+Print Assumptions array_history_capacity.
+
+Example array_history_nonvacuous :
+  map (fun wr => (aabs (fst wr), aobs_res (snd wr), map cap (fst wr)))
+      (arun (ainit 2) [AAppend 0 1; AAppendBuf 0 [2; 3]; AAppend 0 4; AAppend 0 5; ARemoveIt 0 1; ARemoveIdx 0 9;
+                       AResize 0 6 7; AResizeD 0 2; AReserve 0 9; ACopy 1 0; ANewCap 0 5; AAppendArr 0 1;
+                       ARemoveBack 0; AFind 1 5; AClear 1; ARemoveFront 1])
+  = [([[1]; []], RRef 0%nat, [3; 0]); ([[1; 2; 3]; []], RNone, [3; 0]); ([[1; 2; 3; 4]; []], RRef 3%nat, [7; 0]);
+     ([[1; 2; 3; 4; 5]; []], RRef 4%nat, [7; 0]); ([[1; 3; 4; 5]; []], RIt 1%nat, [7; 0]);
+     ([[1; 3; 4; 5]; []], RNone, [7; 0]); ([[1; 3; 4; 5; 7; 7]; []], RNone, [7; 0]); ([[1; 3]; []], RNone, [7; 0]);
+     ([[1; 3]; []], RNone, [11; 0]); ([[1; 3]; [1; 3]], RNone, [11; 11]); ([[]; [1; 3]], RNone, [5; 11]);
+     ([[1; 3]; [1; 3]], RNone, [7; 11]); ([[1]; [1; 3]], RIt 1%nat, [7; 11]); ([[1]; [1; 3]], RIt 2%nat, [7; 11]);
+     ([[1]; []], RNone, [7; 11]); ([[1]; []], RSkip, [7; 11])].
+Proof. vm_compute. reflexivity. Qed.
+
+(* void reserve(usize size), decision by decision *)
+Theorem array_reserve_rule : forall (n : Z) (a : marr),
+    items (a_reserve n a) = items a
+    /\ (if (n >? cap a) || (negb (allocated a) && (n >? 0))
+        then cap (a_reserve n a) = Z.lor (Z.max n (cap a)) 3 /\ allocated (a_reserve n a) = true
+        else a_reserve n a = a).
+Proof. exact a_reserve_rule. Qed.
+Print Assumptions array_reserve_rule.
+
+(* at the boundary: a request that fits an allocated buffer changes nothing (no reallocation) ... *)
+Theorem array_reserve_fits : forall (n : Z) (a : marr), allocated a = true -> n <= cap a -> a_reserve n a = a.
+Proof. exact a_reserve_fits. Qed.
+Print Assumptions array_reserve_fits.
+
+(* ... one more element and the capacity is the request rounded up to the next number 3 modulo 4 *)
+Theorem array_reserve_grows : forall (n : Z) (a : marr), cap a < n ->
+    cap (a_reserve n a) = n - n mod 4 + 3 /\ allocated (a_reserve n a) = true /\ items (a_reserve n a) = items a.
+Proof. exact a_reserve_grows. Qed.
+Print Assumptions array_reserve_grows.
+
+Example array_reserve_boundary :
+  let a := mk_marr [1; 2; 3] 3 true in
+  a_reserve 3 a = a /\ cap (a_reserve 4 a) = 7 /\ cap (a_reserve 8 a) = 11 /\ cap (a_reserve 1 (mk_marr [] 0 false)) = 3
+  /\ a_reserve 0 (mk_marr [] 0 false) = mk_marr [] 0 false /\ cap (a_reserve 2 (mk_marr [] 5 false)) = 7.
+Proof. vm_compute. repeat split; reflexivity. Qed.
+
+(* the shifting loop of remove: exactly the element at the index disappears *)
+Theorem array_remove_shifts : forall (k : nat) (l : list Z), shift_out k l = del_at k l.
+Proof. exact shift_out_del_at. Qed.
+Print Assumptions array_remove_shifts.
+
+Example array_remove_shifts_nonvacuous : shift_out 2 [10; 11; 12; 13; 14] = [10; 11; 13; 14] /\ shift_out 4 [10; 11; 12; 13; 14] = [10; 11; 12; 13].
+Proof. vm_compute. split; reflexivity. Qed.
+
+(* ---- what the ranks mean ------------------------------------------------------------------ *)
+Theorem rank_of_insert_is_inserted : forall (k : nat) (x : list Z) (v : Z) (l : sseq),
+    (k <= length l)%nat -> nth_error (ins_at k (v :: x) l) k = Some v.
+Proof. exact ins_at_designates. Qed.
+Print Assumptions rank_of_insert_is_inserted.
+
+Theorem rank_of_remove_is_successor : forall (k : nat) (l : sseq), (k < length l)%nat ->
+    nth_error (del_at k l) k = nth_error l (S k) /\ length (del_at k l) = pred (length l).
+Proof. exact del_at_designates. Qed.
+Print Assumptions rank_of_remove_is_successor.
+
+Theorem rank_of_append_is_appended : forall (l : sseq) (v : Z), nth_error (l ++ [v]) (length l) = Some v.
+Proof. exact append_designates. Qed.
+Print Assumptions rank_of_append_is_appended.
+
+Example ranks_nonvacuous :
+  nth_error (ins_at 2 [9] [1; 2; 3; 4]) 2 = Some 9 /\ nth_error (del_at 1 [1; 2; 3; 4]) 1 = Some 3
+  /\ nth_error (del_at 3 [1; 2; 3; 4]) 3 = None.
+Proof. vm_compute. repeat split; reflexivity. Qed.
+
+(* ---- List::sort ---------------------------------------------------------------------------- *)
+(* the recursion never runs out of fuel (fuel = length), for every key order *)
 Theorem sort_total : forall (key : Z -> Z) (l : list Z), (2 <= length l)%nat -> exists r, qsort key (length l) l = Some r.
 Proof. exact sort_total_key. Qed.
 Print Assumptions sort_total.
 
-Theorem sort_sorted_permutation : forall l : list Z,
-  Sorted Z.le (sort_vals key_full l) /\ Permutation l (sort_vals key_full l).
-Proof. exact (sort_vals_correct key_full). Qed.
+(* ascending (by key) permutation of the previous contents, for every key order and every input *)
+Theorem sort_sorted_permutation : forall (key : Z -> Z) (l : list Z),
+    Sorted (key_le key) (sort_vals key l) /\ Permutation l (sort_vals key l).
+Proof. exact sort_vals_correct. Qed.
 Print Assumptions sort_sorted_permutation.
+
+Theorem sort_sorted_permutation_int : forall l : list Z,
+    Sorted Z.le (sort_vals key_full l) /\ Permutation l (sort_vals key_full l).
+Proof. exact (sort_vals_correct key_full). Qed.
+Print Assumptions sort_sorted_permutation_int.
+
+(* sort exchanges values only: every node stays in its slot *)
+Theorem sort_keeps_nodes : forall (key : Z -> Z) (l : nlist), nl_inv l -> slots (nodes (nl_sort key l)) = slots (nodes l).
+Proof. exact lsort_keeps_nodes. Qed.
+Print Assumptions sort_keeps_nodes.
+
+Example sort_nonvacuous :
+  sort_vals key_full [5; 2; 9; 2; 7; 1; 8] = [1; 2; 2; 5; 7; 8; 9]
+  /\ sort_vals key_kv [33; 17; 34; 1; 18; 35] = [1; 18; 17; 33; 34; 35]
+  /\ qsort key_full 7 [5; 2; 9; 2; 7; 1; 8] = Some [1; 2; 2; 5; 7; 8; 9].
+Proof. vm_compute. repeat split; reflexivity. Qed.
+
+(* ---- List::sort statement by statement on node positions (ptr0/ptr1/ptr2, swap, the two
+        guarded recursive calls) ------------------------------------------------------------- *)
+Theorem sort_as_coded_is_value_sort : forall (key : Z -> Z) (l : list Z), sort_ptr key l = sort_vals key l.
+Proof. exact sort_ptr_is_sort_vals. Qed.
+Print Assumptions sort_as_coded_is_value_sort.
+
+Theorem sort_as_coded_total : forall (key : Z -> Z) (l : list Z), (2 <= length l)%nat ->
+    exists r, qs_sort key (length l) 0 (length l - 1) l = Some r.
+Proof. exact sort_ptr_total. Qed.
+Print Assumptions sort_as_coded_total.
+
+Theorem sort_as_coded_sorted_permutation : forall (key : Z -> Z) (l : list Z),
+    Sorted (key_le key) (sort_ptr key l) /\ Permutation l (sort_ptr key l).
+Proof. exact sort_ptr_correct. Qed.
+Print Assumptions sort_as_coded_sorted_permutation.
+
+(* sort(left, right) touches nothing outside left..right *)
+Theorem sort_as_coded_segment : forall (key : Z -> Z) (fuel : nat) (pre seg post : list Z),
+    (2 <= length seg)%nat -> (length seg <= fuel)%nat ->
+    qs_sort key fuel (length pre) (length pre + length seg - 1) (pre ++ seg ++ post) =
+    option_map (fun r => pre ++ r ++ post) (qsort key fuel seg).
+Proof. exact qs_sort_refines. Qed.
+Print Assumptions sort_as_coded_segment.
+
+Example sort_as_coded_nonvacuous :
+  sort_ptr key_full [5; 2; 9; 2; 7; 1; 8] = [1; 2; 2; 5; 7; 8; 9]
+  /\ sort_ptr key_kv [33; 17; 34; 1; 18; 35] = [1; 18; 17; 33; 34; 35]
+  /\ qs_sort key_full 3 1 3 [9; 3; 2; 1; 0] = Some [9; 1; 2; 3; 0]
+  /\ qs_loop key_full 4 0 4 [5; 7; 2; 8; 1] 0 0 0 = Some ([5; 2; 1; 8; 7], 1%nat, 2%nat).
+Proof. vm_compute. repeat split; reflexivity. Qed.
